@@ -1447,6 +1447,41 @@ def _only_braces(toks):
 
 
 
+
+def norm_loop_break(ss):
+    """RN1: `loop { if C { break; } B }` -> `while !(C) { B }` (definitional unfolding of `while`, std reference:
+    `while C { B }` is `loop { if C { B } else { break } }`); applied only where the annotated base has a `while`."""
+    out = []
+    i = 0
+    n = 0
+    while i < len(ss):
+        if ss[i] == "loop" and ss[i + 1:i + 3] == ["{", "if"]:
+            # condition: up to the `{` at depth 0
+            j = i + 3
+            d = 0
+            while j < len(ss) and not (ss[j] == "{" and d == 0):
+                d += (ss[j] in ("(", "[")) - (ss[j] in (")", "]"))
+                j += 1
+            if j + 3 < len(ss) and ss[j + 1:j + 4] == ["break", ";", "}"] and ss[j + 4:j + 5] != ["else"]:
+                cond = ss[i + 3:j]
+                # end of the loop body
+                k = i + 1
+                d = 0
+                while k < len(ss):
+                    d += (ss[k] == "{") - (ss[k] == "}")
+                    if d == 0:
+                        break
+                    k += 1
+                body = ss[j + 4:k]
+                if "break" not in cond:
+                    out += ["while", "!", "("] + cond + [")", "{"] + body + ["}"]
+                    i = k + 1
+                    n += 1
+                    continue
+        out.append(ss[i])
+        i += 1
+    return out, n
+
 # ------------------------------------------------------------------ equivalence hints for expression-level edits
 # When an edit rewrites ONE expression inside an otherwise unchanged statement into another expression over the same
 # machine integers, the proof text of the unit still talks about the old form. The weaver then adds, in front of the
